@@ -332,6 +332,26 @@ def oracle(case, resps):
                     return (i, "duplicate toxic name accepted")
                 if t not in now[segs[1]]["toxics"]:
                     return (i, "created toxic is not listed")
+            # toxics are unique by name within a proxy: unknown toxic names yield 404, existing ones are shown / removed, and a
+            # 409 is only ever the answer to a name that is in use
+            if len(segs) == 4 and segs[0] == "proxies" and segs[2] == "toxics" and segs[1] in known and st != 405:
+                have = {t["name"]: t for t in known[segs[1]]["toxics"]}
+                if segs[3] not in have:
+                    if st != 404:
+                        return (i, "request for unknown toxic %r of proxy %r answered %d, not 404" % (segs[3], segs[1], st))
+                elif q["method"] == "GET":
+                    if st != 200 or pl != ("toxic", have[segs[3]]):
+                        return (i, "GET of toxic %r does not reflect the earlier writes (status %d)" % (segs[3], st))
+                elif q["method"] == "DELETE":
+                    if st != 204 or any(t["name"] == segs[3] for t in now.get(segs[1], {"toxics": []})["toxics"]):
+                        return (i, "DELETE of an existing toxic answered %d / toxic still listed" % st)
+            if q["method"] == "POST" and len(segs) == 3 and segs[2] == "toxics" and segs[1] in known and st == 409:
+                given = {k.lower(): v for k, v in q["json"][1]} if q["json"] and q["json"][0] == "obj" else {}
+                nm = given.get("name")
+                ty, sm = given.get("type"), given.get("stream", ("str", "downstream"))
+                name = nm[1] if nm and nm[0] == "str" and nm[1] else ("%s_%s" % (ty[1], sm[1]) if ty and ty[0] == "str" and sm[0] == "str" else None)
+                if name is not None and all(t["name"] != name for t in known[segs[1]]["toxics"]):
+                    return (i, "toxic create answered 409 although proxy %r has no toxic named %r" % (segs[1], name))
             names = [t["name"] for p in now.values() for t in p["toxics"] if True]
             for p in now.values():
                 tn = [t["name"] for t in p["toxics"]]
